@@ -675,3 +675,50 @@ def iterfillleft(h):
             ctx.oblige('iterfillleft: the header first, once, unchanged; nothing after the last row',
                        z3.And(pre.len == 1, _t(row_eq(out_row(pre, 0), src_row(S, 0))), res.out.len == 0))
     h.explore(body)
+
+
+# ------------------------------------------------------------------------------------------------ rename
+@vc('C12.iterrename', functions=['petl.transform.headers.iterrename'], props=['C12', 'C03', 'C02'],
+    assumptions=['a rename specification with one positional entry {p: X} and one by-name entry {n: Y}; strict=False',
+                 'dict membership / lookup modulo == (T6)', 'stateless-body rule for the data rows'])
+def iterrename(h):
+    """rename: header position i becomes X if i is the renamed POSITION, else Y if its name is the renamed NAME, else stays as it is
+    (the text of the field) -- a positional rename touches that one position only, even when other fields carry the same name; data
+    rows pass through unchanged, one per row."""
+    HQ = 'petl.transform.headers.iterrename'
+
+    def body(ctx):
+        def delta(ls, x, dout):
+            ctx.oblige('iterrename: every data row is yielded once, as a tuple of itself', z3.And(dout.len == 1, _t(row_eq(out_row(dout, 0), x))))
+        it = h.interp(ctx, loops={(HQ, 1): LoopSpec(delta=delta, label='data rows')})
+        S = sym_table(ctx, 'S', nmin=1)
+        pidx = sym_int('p')
+        ctx.assume(pidx.t >= 0)
+        n, X, Y = sym_cell('n'), sym_cell('X'), sym_cell('Y')
+        ctx.assume(smt.cls(n.t) == smt.TEXT)
+        ctx.facts.append(smt.py_eq(n.t, n.t))
+        xx = z3.Const('x!r', V)
+        ctx.facts.append(z3.ForAll([xx], z3.Not(smt.py_eq(bi._strf(xx), smt.mkint(pidx.t)))))      # a field name (text) is never == an int
+        ctx.facts.append(z3.ForAll([xx], z3.Implies(smt.is_int(xx), z3.Not(smt.py_eq(xx, n.t)))))   # ... and an int position never == a name
+        ctx.facts.append(z3.ForAll([xx], z3.Not(smt.py_eq(smt.mkint(pidx.t), bi._strf(xx)))))
+        ii = smt.fresh_int('i')
+        ctx.facts.append(z3.ForAll([ii], smt.is_int(smt.mkint(ii))))          # (the lifting axiom of mkint, universally: it is instantiated per use otherwise)
+        ctx.facts.append(z3.ForAll([xx], z3.Implies(smt.is_int(xx), z3.Not(smt.py_eq(n.t, xx)))))
+        spec = bi.SDict(it)
+        spec.setitem(it, pidx, X)
+        spec.setitem(it, n, Y)
+        res = run_generator(it, closure_of(it, HQ), [S, spec, False])
+        if res.exc is not None:
+            ctx.oblige('iterrename: never raises (strict=False)', z3.BoolVal(False), res.exc.origin or '')
+            return
+        if getattr(ctx, 'after_loop', None):
+            pre = ctx.pre_loop_out
+            o = out_row(pre, 0)
+            hdr = src_row(S, 0)
+            q = smt.fresh_int('q')
+            name = lambda qq: bi._strf(z3.Select(hdr.arr, qq))
+            ctx.oblige('iterrename: header position i is X for the renamed position, else Y for the renamed name, else the field name itself',
+                       z3.And(pre.len == 1, o.len == hdr.len, res.out.len == 0,
+                              z3.ForAll([q], z3.Implies(z3.And(0 <= q, q < hdr.len),
+                                                        z3.Select(o.arr, q) == z3.If(q == pidx.t, X.t, z3.If(smt.py_eq(name(q), n.t), Y.t, name(q)))))))
+    h.explore(body)
